@@ -180,4 +180,54 @@ def gqlOffered (rx : Rx) (fs : FilterSet) (doc : Doc) : List Op :=
 def cliOffered (rx : Rx) (c : CliArgs) (doc : Doc) : List Op :=
   (operations doc).filter fun o => cliSelected rx c (factsOf o .res)
 
+/-! ### derivation histories
+
+  What the property says about schemas derived from schemas: a schema is created once, with the filters of the
+  schema it was derived from plus the filter its own `include`/`exclude` call states; it *is* that filter set from
+  then on, whatever is derived from it (or from anything else) later.  So a history is a list of immutable values,
+  one per object, in creation order, and a step can only append. -/
+
+def vstep (v : Variant) (vals : List FilterSet) : HOp → List FilterSet
+  | .derive p c =>
+    match vals[p]? with
+    | none => vals
+    | some fs =>
+      match applyCall fs c with
+      | .error _ => vals
+      | .ok fs' => vals ++ [fs']
+  | .share p =>
+    match vals[p]? with
+    | none => vals
+    | some fs => vals ++ [fs]
+  | .resolve l f =>
+    match vals[l]? with
+    | none => vals
+    | some lz =>
+      match vals[f]? with
+      | none => vals
+      | some fx => vals ++ [lazyFilterSet v fx lz]
+  | .adopt c =>
+    match cliInto c with
+    | .error _ => vals
+    | .ok fs => vals ++ [fs]
+
+def vrun (v : Variant) (vals : List FilterSet) : List HOp → List FilterSet
+  | [] => vals
+  | op :: ops => vrun v (vstep v vals op) ops
+
+/-- the refusal a step must report -/
+def vstepErr (vals : List FilterSet) : HOp → Option Err
+  | .derive p c =>
+    match vals[p]? with
+    | none => none
+    | some fs =>
+      match applyCall fs c with
+      | .error e => some e
+      | .ok _ => none
+  | .adopt c =>
+    match cliInto c with
+    | .error e => some e
+    | .ok _ => none
+  | _ => none
+
 end SV.Spec.C07
